@@ -159,7 +159,23 @@ func usesOf(info *types.Info, body ast.Node) []string {
 		case *ast.SelectorExpr:
 			if sel, ok := info.Selections[v]; ok && sel.Kind() == types.FieldVal {
 				set["field:"+sel.Obj().Name()] = true
+				set["fieldtype:"+aliasedTypeString(sel.Obj().Type())] = true // (survives a rename of the field)
 			}
+		// the shape of the body, which no rename touches
+		case *ast.SelectStmt:
+			set["stmt:select"] = true
+		case *ast.SendStmt:
+			set["stmt:send"] = true
+		case *ast.GoStmt:
+			set["stmt:go"] = true
+		case *ast.DeferStmt:
+			set["stmt:defer"] = true
+		case *ast.RangeStmt:
+			set["stmt:range"] = true
+		case *ast.ForStmt:
+			set["stmt:for"] = true
+		case *ast.SwitchStmt, *ast.TypeSwitchStmt:
+			set["stmt:switch"] = true
 		}
 		return true
 	})
@@ -303,7 +319,7 @@ func resolveNames(pkgs []*packages.Package) {
 			if refTypeNames[rt.Pkg][tn.Name()] || typeAlias[tn] != "" {
 				continue
 			}
-			s := jaccard(rt.Members, typeMembers(tn.Type().(*types.Named)))
+			s := memberScore(rt.Members, typeMembers(tn.Type().(*types.Named)))
 			if s > bestScore {
 				best, second, bestScore = tn, bestScore, s
 			} else if s > second {
@@ -368,7 +384,7 @@ func resolveNames(pkgs []*packages.Package) {
 				second = s
 			}
 		}
-		if best != nil && (len(cands) == 1 || (bestScore >= 0.4 && bestScore > second)) {
+		if best != nil && (len(cands) == 1 || (bestScore >= 0.3 && second < 0.75*bestScore)) {
 			funcAlias[best] = rf.Name
 			if asFunc[best] {
 				funcAliasRecv[best] = rf.Recv
@@ -433,4 +449,25 @@ func init() {
 			println("FUNC", a, "played by", funcName(f))
 		}
 	}
+}
+
+// memberScore: similarity of two types' member lists; the fields (which a rename of methods does not
+// touch) weigh more than the method names.
+func memberScore(a, b []string) float64 {
+	split := func(xs []string) (fields, methods []string) {
+		for _, x := range xs {
+			if strings.HasPrefix(x, "method:") {
+				methods = append(methods, x)
+			} else {
+				fields = append(fields, x)
+			}
+		}
+		return
+	}
+	af, am := split(a)
+	bf, bm := split(b)
+	if len(af) == 0 && len(bf) == 0 {
+		return jaccard(am, bm)
+	}
+	return 0.75*jaccard(af, bf) + 0.25*jaccard(am, bm)
 }
